@@ -379,3 +379,1047 @@ func pushSites(c *report.Ctx, f *ssa.Function, kind string) []ssa.Instruction {
 	}
 	return out
 }
+
+// ruleRollbackBeforeCursorMoves (C01, C12, C06): TxStore.Rollback works out which heights to unwind from the stored
+// synced-to cursor; whoever moves the cursor back first turns it into a no-op that reports success.
+func ruleRollbackBeforeCursorMoves(c *report.Ctx) {
+	p := c.P
+	c.Rule("rollback-before-cursor-moves", "TxStore.Rollback derives the heights it unwinds from the stored synced-to block (it reads SyncStore.SyncedTo): in every function that both rolls the transaction store back and moves the cursor (ResetSyncedTo / SetSyncedTo), no path moves the cursor first — a Rollback that finds the cursor already below the block does nothing and returns nil, the block's credits, debits and used-address marks stay although the wallet reports the new branch", 1)
+	rb := fn(c, pkgTxmgr, "TxStore", "Rollback")
+	synced := fn(c, pkgTxmgr, "SyncStore", "SyncedTo")
+	reset := fn(c, pkgTxmgr, "SyncStore", "ResetSyncedTo")
+	set := fn(c, pkgTxmgr, "SyncStore", "SetSyncedTo")
+	if rb == nil || synced == nil || reset == nil {
+		return
+	}
+	reached, _ := p.Reach([]*ssa.Function{rb}, an.ReachOpts{})
+	if !reached[synced] {
+		c.OK(sk(rb)+":cursor-independent", "Rollback no longer reads the synced-to cursor: the order is free", p.Pos(rb.Pos()))
+		return
+	}
+	movers := an.Set(reset)
+	if set != nil {
+		movers[set] = true
+	}
+	n := 0
+	for _, f := range p.ModFuncs {
+		if !p.InModule(f) || f.Blocks == nil || f == rb {
+			continue
+		}
+		rbs := calls(f, rb)
+		if len(rbs) == 0 {
+			continue
+		}
+		for i, r := range rbs {
+			var mv []ssa.Instruction
+			for m := range movers {
+				mv = append(mv, calls(f, m)...)
+			}
+			if len(mv) == 0 {
+				continue
+			}
+			n++
+			key := siteKey(f, "Rollback~before-cursor", i+1)
+			bad := false
+			for _, m := range mv {
+				s := &an.Search{P: p, Fn: f, GoalInstr: func(in ssa.Instruction) bool { return in == r }}
+				// from just after the mover
+				idx := 0
+				for k, in := range m.Block().Instrs {
+					if in == m {
+						idx = k + 1
+					}
+				}
+				if w := s.Run(m.Block(), idx, nil); w != nil {
+					bad = true
+					c.Fail(key, "the synced-to cursor is moved before the transaction store is rolled back: Rollback reads the cursor to find the heights to unwind, finds nothing above it and returns nil — the disconnected block's records stay", posOf(c, m), w...)
+					break
+				}
+			}
+			if !bad {
+				c.OK(key, "the transaction store is rolled back while the cursor still stands on the block", posOf(c, r))
+			}
+		}
+	}
+	if n == 0 {
+		c.Fail("rollback-before-cursor-moves:sites", "no function rolls the store back and moves the cursor (anchor lost)", "")
+	}
+}
+
+// ruleHandleStateFollowsCommit (C11, C18): nothing a transaction does is remembered on the database handle.
+func ruleHandleStateFollowsCommit(c *report.Ctx) {
+	p := c.P
+	c.Rule("handle-state-follows-commit", "code that runs inside a transaction (methods of ldb.transaction, levelBucket, levelIterator and what they reach inside the package) writes nothing into the database handle (*ldb.LevelDB): no field store, no map update, no Store/Delete/LoadOrStore/Swap on a field of it — what a transaction learned or did may be undone by Rollback or by a failed Commit, and the handle outlives both (a bucket 'seen' in a rolled-back transaction would stay visible to every later one)", 0)
+	ldbT := p.Type(pkgLDB, "LevelDB")
+	if ldbT == nil {
+		c.Lost("ldb.LevelDB")
+		return
+	}
+	inTx := func(f *ssa.Function) bool {
+		if f.Signature.Recv() == nil {
+			return false
+		}
+		n := an.NamedOf(f.Signature.Recv().Type())
+		if n == nil {
+			return false
+		}
+		switch n.Obj().Name() {
+		case "transaction", "levelBucket", "levelIterator", "batchIterator":
+			return n.Obj().Pkg() != nil && n.Obj().Pkg().Path() == pkgLDB
+		}
+		return false
+	}
+	var roots []*ssa.Function
+	for _, f := range p.ModFuncs {
+		if pk := an.FuncPkg(f); pk != nil && pk.Path() == pkgLDB && f.Blocks != nil && inTx(f) {
+			roots = append(roots, f)
+		}
+	}
+	reached, _ := p.Reach(roots, an.ReachOpts{})
+	onHandle := func(addr ssa.Value) bool {
+		for i := 0; i < 5; i++ {
+			switch x := addr.(type) {
+			case *ssa.FieldAddr:
+				if n := an.NamedOf(x.X.Type()); n != nil && n.Obj() == ldbT.Obj() {
+					return true
+				}
+				addr = x.X
+			case *ssa.IndexAddr:
+				addr = x.X
+			case *ssa.UnOp:
+				if x.Op != token.MUL {
+					return false
+				}
+				addr = x.X
+			default:
+				return false
+			}
+		}
+		return false
+	}
+	mutators := map[string]bool{"Store": true, "Delete": true, "LoadOrStore": true, "LoadAndDelete": true, "Swap": true, "CompareAndSwap": true, "CompareAndDelete": true, "Add": true, "Set": true, "Range": false}
+	scanned := 0
+	for f := range reached {
+		if pk := an.FuncPkg(f); pk == nil || pk.Path() != pkgLDB || f.Blocks == nil {
+			continue
+		}
+		scanned++
+		k := 0
+		an.Instrs(f, func(in ssa.Instruction) {
+			what := ""
+			switch x := in.(type) {
+			case *ssa.Store:
+				if onHandle(x.Addr) {
+					what = "stores into " + p.Desc(x.Addr)
+				}
+			case *ssa.MapUpdate:
+				if onHandle(x.Map) {
+					what = "updates the map " + p.Desc(x.Map)
+				}
+			}
+			if cc := an.CallOf(in); cc != nil && cc.StaticCallee() != nil && cc.StaticCallee().Signature.Recv() != nil && len(cc.Args) > 0 && mutators[cc.StaticCallee().Name()] {
+				if pk := an.FuncPkg(cc.StaticCallee()); pk != nil && (pk.Path() == "sync" || pk.Path() == "sync/atomic") && onHandle(cc.Args[0]) {
+					what = "calls " + cc.StaticCallee().Name() + " on " + p.Desc(cc.Args[0])
+				}
+			}
+			if what == "" {
+				return
+			}
+			k++
+			c.Fail(siteKey(f, "handle-write", k), sk(f)+" runs inside a transaction and "+what+": the handle keeps it when the transaction is rolled back or its commit fails, and every later transaction on the handle sees it", posOf(c, in))
+		})
+	}
+	if scanned < 10 {
+		c.Fail("handle-state-follows-commit:coverage", "fewer than 10 functions of the LevelDB driver were found to run inside a transaction (anchor lost)", "")
+	} else {
+		c.OK("handle-state-follows-commit:coverage", itoa(scanned)+" functions that run inside a transaction write nothing into the handle", "")
+	}
+}
+
+// ruleStatusRowsOneDecoder (C06, C08): every wallet status handed out by the sync store was decoded by the one decoder.
+func ruleStatusRowsOneDecoder(c *report.Ctx) {
+	p := c.P
+	c.Rule("status-rows-one-decoder", "every WalletStatus record a reading method of SyncStore hands out (GetWalletStatus, GetAllWalletStatus, …) was filled by readWalletStatus — the one place that knows the row's layout, including the flag byte that marks a wallet as being removed: a listing that decodes rows by hand and leaves the flags out makes the worker's start-up scan (which rebuilds the lost task queue from the listing) skip an interrupted removal for ever", 2)
+	ws := p.Type(pkgTxmgr, "WalletStatus")
+	ss := p.Type(pkgTxmgr, "SyncStore")
+	dec := fn(c, pkgTxmgr, "", "readWalletStatus")
+	if ws == nil || ss == nil || dec == nil {
+		return
+	}
+	handsOut := func(f *ssa.Function) bool {
+		res := f.Signature.Results()
+		for i := 0; i < res.Len(); i++ {
+			t := res.At(i).Type()
+			if sl, ok := t.Underlying().(*types.Slice); ok {
+				t = sl.Elem()
+			}
+			if n := an.NamedOf(t); n != nil && n.Obj() == ws.Obj() {
+				return true
+			}
+		}
+		return false
+	}
+	for _, f := range p.ModFuncs {
+		if pk := an.FuncPkg(f); pk == nil || pk.Path() != pkgTxmgr || f.Blocks == nil || f.Signature.Recv() == nil {
+			continue
+		}
+		if n := an.NamedOf(f.Signature.Recv().Type()); n == nil || n.Obj() != ss.Obj() || !handsOut(f) {
+			continue
+		}
+		decoded := map[ssa.Value]bool{}
+		for _, s := range calls(f, dec) {
+			if a := an.CallOf(s).Args; len(a) >= 3 {
+				decoded[a[2]] = true
+			}
+		}
+		k := 0
+		an.Instrs(f, func(in ssa.Instruction) {
+			a, ok := in.(*ssa.Alloc)
+			if !ok {
+				return
+			}
+			if n := an.NamedOf(a.Type()); n == nil || n.Obj() != ws.Obj() {
+				return
+			}
+			k++
+			key := siteKey(f, "record", k)
+			if decoded[a] {
+				c.OK(key, "filled by readWalletStatus", posOf(c, in))
+			} else {
+				c.Fail(key, "a wallet status record is built in "+sk(f)+" without readWalletStatus: whatever the row layout carries beyond what is copied by hand (the removal flag) is lost for every caller of this method", posOf(c, in))
+			}
+		})
+	}
+}
+
+// ruleStoredEntropyIsRaw (C13, C04, C05): what is kept as the wallet's entropy is the raw entropy.
+func ruleStoredEntropyIsRaw(c *report.Ctx) {
+	p := c.P
+	c.Rule("stored-entropy-is-raw", "every value handed on as a wallet's entropy (an argument bound to a []byte parameter named entropy in the keystore package) comes from NewEntropy, EntropyFromMnemonic, a decryption of the stored entropy, the caller's own entropy parameter, or MnemonicToByteArray asked for the raw form: GetMnemonic and the keystore export turn the stored bytes back into the sentence with NewMnemonic, which refuses the checksummed form (17/21/25/29/33 bytes) — a wallet imported that way works until its backup is needed", 2)
+	m2b := fn(c, pkgKeystore, "", "MnemonicToByteArray")
+	n := 0
+	for _, f := range p.ModFuncs {
+		if pk := an.FuncPkg(f); pk == nil || pk.Path() != pkgKeystore || f.Blocks == nil {
+			continue
+		}
+		k := 0
+		an.Instrs(f, func(in ssa.Instruction) {
+			cc := an.CallOf(in)
+			if cc == nil || cc.StaticCallee() == nil || !p.InModule(cc.StaticCallee()) {
+				return
+			}
+			cal := cc.StaticCallee()
+			off := 0
+			if cal.Signature.Recv() != nil {
+				off = 1
+			}
+			for i := 0; i < cal.Signature.Params().Len(); i++ {
+				pv := cal.Signature.Params().At(i)
+				if pv.Name() != "entropy" || i+off >= len(cc.Args) {
+					continue
+				}
+				if sl, ok := pv.Type().Underlying().(*types.Slice); !ok || !types.Identical(sl.Elem(), types.Typ[types.Byte]) {
+					continue
+				}
+				k++
+				n++
+				key := siteKey(f, "entropy->"+nm(cal), k)
+				bad := ""
+				for _, o := range callOrigins(p, cc.Args[i+off]) {
+					switch {
+					case strings.HasSuffix(o, "NewEntropy"), strings.HasSuffix(o, "EntropyFromMnemonic"), strings.Contains(o, "Decrypt"), strings.HasSuffix(o, "secretbox.Open"), strings.HasPrefix(o, "param:entropy@"):
+					case strings.HasSuffix(o, "MnemonicToByteArray"):
+						// only when asked for the raw form
+						raw := false
+						if m2b != nil {
+							for _, s := range calls(f, m2b) {
+								if a := an.CallOf(s).Args; len(a) == 2 {
+									if sl, ok := a[1].(*ssa.Slice); ok {
+										if arr, ok := sl.X.(*ssa.Alloc); ok && arr.Referrers() != nil {
+											for _, r := range *arr.Referrers() {
+												if ia, ok := r.(*ssa.IndexAddr); ok && ia.Referrers() != nil {
+													for _, rr := range *ia.Referrers() {
+														if st, ok := rr.(*ssa.Store); ok {
+															if kv := foldConst(st.Val, 0); kv != nil && kv.ExactString() == "true" {
+																raw = true
+															}
+														}
+													}
+												}
+											}
+										}
+									}
+								}
+							}
+						}
+						if !raw {
+							bad = "MnemonicToByteArray without raw=true (the checksummed form)"
+						}
+					case o == "fresh":
+						bad = "a buffer computed on the spot (e.g. MnemonicToByteArray's checksummed form)"
+					default:
+						bad = o
+					}
+				}
+				if bad == "" {
+					c.OK(key, "raw entropy", posOf(c, in))
+				} else {
+					c.Fail(key, "the bytes kept as the wallet's entropy come from "+bad+": the mnemonic can no longer be read back and an exported keystore of this wallet cannot be imported (NewMnemonic refuses the length)", posOf(c, in))
+				}
+			}
+		})
+	}
+	_ = n
+}
+
+// ruleSpenderReferenceIsTheInput (C08, C01): the spender a spent credit remembers is (spending tx, position of the input).
+func ruleSpenderReferenceIsTheInput(c *report.Ctx) {
+	p := c.P
+	c.Rule("spender-reference-is-the-input", "the reference spendCredit stores in a spent credit names the spending transaction and the position of the spending INPUT in it (RelevantMeta.Index of the relevant input) — the key its debit row was written under: wallet removal reads the reference back to delete that debit, so a reference built from the spent outpoint's output index deletes another wallet's debit (or none) and the next rollback of that block fails for everybody", 1)
+	spend := fn(c, pkgTxmgr, "", "spendCredit")
+	if spend == nil {
+		return
+	}
+	n := 0
+	for _, f := range p.ModFuncs {
+		if pk := an.FuncPkg(f); pk == nil || pk.Path() != pkgTxmgr || f.Blocks == nil {
+			continue
+		}
+		for i, s := range calls(f, spend) {
+			a := an.CallOf(s).Args
+			if len(a) < 3 {
+				continue
+			}
+			rec, ok := a[2].(*ssa.Alloc)
+			if !ok || rec.Referrers() == nil {
+				continue
+			}
+			for _, r := range *rec.Referrers() {
+				fa, ok := r.(*ssa.FieldAddr)
+				if !ok || an.FName(derefStructT(fa.X.Type()), fa.Field) != "index" || fa.Referrers() == nil {
+					continue
+				}
+				for _, rr := range *fa.Referrers() {
+					st, ok := rr.(*ssa.Store)
+					if !ok || st.Addr != ssa.Value(fa) {
+						continue
+					}
+					n++
+					key := siteKey(f, "spender.index", i+1)
+					d := p.Desc(st.Val)
+					if strings.Contains(d, "RelevantMeta.Index") && !strings.Contains(d, "OutPoint") {
+						c.OK(key, "the position of the relevant input", posOf(c, st))
+					} else {
+						c.Fail(key, "the spender reference is indexed by "+d+", not by the position of the spending input: removal of the wallet deletes the debit stored under another input's key", posOf(c, st))
+					}
+				}
+			}
+		}
+	}
+	if n == 0 {
+		c.Fail("spender-reference-is-the-input:sites", "no spender reference is built for spendCredit (anchor lost)", "")
+	}
+}
+
+// ruleRemovalRoundProgress (C20): a removal round that does not finish has deleted something.
+func ruleRemovalRoundProgress(c *report.Ctx) {
+	p := c.P
+	c.Rule("removal-round-progress", "removeRelevantCredit reports 'not finished' (a round cut short) only at a credit of the wallet being removed — under the script-hash test: the worker repeats the round from the first key until it reports finished, so a cut at foreign credits (a limit on entries visited) repeats the same fruitless round for ever, the follower is parked each time and queued tasks never start", 1)
+	rrc := fn(c, pkgTxmgr, "UtxoStore", "removeRelevantCredit")
+	if rrc == nil {
+		return
+	}
+	n, bad := 0, 0
+	// the verdict as a merged value at the success return
+	for _, b := range rrc.Blocks {
+		r, isRet := b.Instrs[len(b.Instrs)-1].(*ssa.Return)
+		if !isRet || len(r.Results) != 3 || p.ClassifyReturn(r, nil) == an.RetError {
+			continue
+		}
+		seen := map[*ssa.Phi]bool{}
+		var walk func(ph *ssa.Phi)
+		walk = func(ph *ssa.Phi) {
+			if seen[ph] {
+				return
+			}
+			seen[ph] = true
+			for i, e := range ph.Edges {
+				switch x := e.(type) {
+				case *ssa.Phi:
+					walk(x)
+				case *ssa.Const:
+					if x.Value != nil && x.Value.ExactString() == "false" && i < len(ph.Block().Preds) {
+						n++
+						if !ownCreditGuard(p, rrc, p.GuardsOnEdge(ph.Block().Preds[i], ph.Block())) {
+							bad++
+						}
+					}
+				}
+			}
+		}
+		if ph, isPhi := an.RetOperand(r, 1).(*ssa.Phi); isPhi {
+			walk(ph)
+		}
+	}
+	// the verdict as a variable (shared with a scanning literal)
+	verdict := map[*ssa.Alloc]bool{}
+	for _, b := range rrc.Blocks {
+		r, isRet := b.Instrs[len(b.Instrs)-1].(*ssa.Return)
+		if !isRet || len(r.Results) != 3 {
+			continue
+		}
+		if ld, isLd := an.RetOperand(r, 1).(*ssa.UnOp); isLd && ld.Op == token.MUL {
+			if a := rootCell(ld.X); a != nil {
+				verdict[a] = true
+			}
+		}
+	}
+	for _, g := range withLiterals(rrc) {
+		an.Instrs(g, func(in ssa.Instruction) {
+			st, ok := in.(*ssa.Store)
+			if !ok {
+				return
+			}
+			if b, isB := st.Val.Type().Underlying().(*types.Basic); !isB || b.Kind() != types.Bool {
+				return
+			}
+			if a := rootCell(st.Addr); a == nil || !verdict[a] {
+				return
+			}
+			if k := foldConst(st.Val, 0); k != nil && k.ExactString() == "false" {
+				// `return nil, false, err` spilled into the result variables is not a verdict
+				if r, isRet := in.Block().Instrs[len(in.Block().Instrs)-1].(*ssa.Return); isRet && p.ClassifyReturn(r, nil) == an.RetError {
+					return
+				}
+				n++
+				if !ownCreditGuard(p, rrc, p.GuardsOf(in)) {
+					bad++
+				}
+			}
+		})
+	}
+	key := sk(rrc) + ":round-cut-only-at-own-credit"
+	switch {
+	case n == 0:
+		c.Fail(key, "removeRelevantCredit never reports 'not finished' (anchor lost)", p.Pos(rrc.Pos()))
+	case bad > 0:
+		c.Fail(key, "a removal round can be cut short at a credit that is not the removed wallet's: beside a wallet with more credits than the limit every round deletes nothing and the removal never finishes", p.Pos(rrc.Pos()))
+	default:
+		c.OK(key, "cut short only under the script-hash test", p.Pos(rrc.Pos()))
+	}
+}
+
+// ruleReloadedPathFromRowKey (C04, C14): an address loaded from the database carries the branch its row key names.
+func ruleReloadedPathFromRowKey(c *report.Ctx) {
+	p := c.P
+	c.Rule("reloaded-path-from-row-key", "loadAddrManager gives every address it rebuilds from the public-key bucket the branch AND the index decoded from that row's key: signing re-derives the private key from the recorded path, so a change (internal-branch) address reloaded onto the external branch signs with the wrong key — silently, after the first restart", 1)
+	f := fn(c, pkgKeystore, "", "loadAddrManager")
+	dp := p.Type(pkgKeystore, "DerivationPath")
+	if f == nil || dp == nil {
+		return
+	}
+	n := 0
+	for _, g := range withLiterals(f) {
+		an.Instrs(g, func(in ssa.Instruction) {
+			a, ok := in.(*ssa.Alloc)
+			if !ok {
+				return
+			}
+			if nn := an.NamedOf(a.Type()); nn == nil || nn.Obj() != dp.Obj() || a.Referrers() == nil {
+				return
+			}
+			got := map[string]string{}
+			whole := ""
+			for _, r := range *a.Referrers() {
+				switch x := r.(type) {
+				case *ssa.FieldAddr:
+					name := an.FName(derefStructT(x.X.Type()), x.Field)
+					if x.Referrers() == nil {
+						continue
+					}
+					for _, rr := range *x.Referrers() {
+						if st, isSt := rr.(*ssa.Store); isSt && st.Addr == ssa.Value(x) {
+							got[name] = p.Desc(st.Val)
+						}
+					}
+				case *ssa.Store:
+					if x.Addr == ssa.Value(a) {
+						whole = p.Desc(x.Val)
+					}
+				}
+			}
+			if len(got) == 0 && whole == "" {
+				return
+			}
+			n++
+			key := siteKey(g, "path", n)
+			fromKey := func(d, field string) bool { return strings.Contains(d, "."+field) && !strings.Contains(d, "global:") }
+			if fromKey(got["Branch"], "branch") && fromKey(got["Index"], "index") {
+				c.OK(key, "branch and index of the row key", posOf(c, in))
+			} else {
+				c.Fail(key, "the derivation path of a reloaded address takes its branch from "+firstNonEmpty(got["Branch"], whole, "nothing (zero)")+" and its index from "+firstNonEmpty(got["Index"], whole, "nothing (zero)")+", not both from the decoded row key: after a restart an internal-branch address is re-derived on another branch and signs with the wrong key", posOf(c, in))
+			}
+		})
+	}
+	if n == 0 {
+		c.Fail(sk(f)+":path", "loadAddrManager builds no derivation path (anchor lost)", p.Pos(f.Pos()))
+	}
+}
+
+func firstNonEmpty(s ...string) string {
+	for _, x := range s {
+		if x != "" {
+			return x
+		}
+	}
+	return ""
+}
+
+// ruleUnlockFlagFollowsHash (C03, C05): the unlocked flag and the cached passphrase hash change together.
+func ruleUnlockFlagFollowsHash(c *report.Ctx) {
+	p := c.P
+	c.Rule("unlock-flag-follows-hash", "AddrManager.unlocked and AddrManager.hashedPrivPassphrase change together: a function that wipes the cached salted hash also clears the flag, one that fills it also sets the flag — checkPassword's fast path for an unlocked manager compares the candidate with the cached hash, so a wipe that leaves the flag set (a passphrase check that tidies up while a signer holds the manager unlocked) makes the right passphrase fail for the signer's next input", 2)
+	am := p.Type(pkgKeystore, "AddrManager")
+	if am == nil {
+		return
+	}
+	n := 0
+	for _, f := range p.ModFuncs {
+		if pk := an.FuncPkg(f); pk == nil || pk.Path() != pkgKeystore || f.Blocks == nil {
+			continue
+		}
+		var wipes, fills []ssa.Instruction
+		an.Instrs(f, func(in ssa.Instruction) {
+			if st, ok := in.(*ssa.Store); ok && addrRootsAtField(st.Addr, am, "hashedPrivPassphrase") {
+				fills = append(fills, in)
+			}
+			if cc := an.CallOf(in); cc != nil && cc.StaticCallee() != nil && len(cc.Args) > 0 {
+				if pk := an.FuncPkg(cc.StaticCallee()); pk != nil && strings.HasSuffix(pk.Path(), "/zero") && addrRootsAtField(cc.Args[0], am, "hashedPrivPassphrase") {
+					wipes = append(wipes, in)
+				}
+			}
+		})
+		if len(wipes)+len(fills) == 0 {
+			continue
+		}
+		flag := map[string]bool{}
+		for _, s := range fieldStores(f, am, "unlocked") {
+			if k := foldConst(s.(*ssa.Store).Val, 0); k != nil {
+				flag[k.ExactString()] = true
+			}
+		}
+		for i, w := range wipes {
+			n++
+			key := siteKey(f, "wipe-hash", i+1)
+			if flag["false"] {
+				c.OK(key, "the flag is cleared in the same function", posOf(c, w))
+			} else {
+				c.Fail(key, sk(f)+" wipes the cached passphrase hash but leaves AddrManager.unlocked as it is: while a signer holds the manager unlocked the next passphrase check compares with zeroes and refuses the right passphrase", posOf(c, w))
+			}
+		}
+		for i, w := range fills {
+			n++
+			key := siteKey(f, "fill-hash", i+1)
+			if flag["true"] {
+				c.OK(key, "the flag is set in the same function", posOf(c, w))
+			} else {
+				c.Fail(key, sk(f)+" fills the cached passphrase hash without setting AddrManager.unlocked", posOf(c, w))
+			}
+		}
+	}
+	_ = n
+}
+
+// ruleChainFetcherHasNoMemory (C07, C12): the wallet's view of the chain is the chain database, asked every time.
+func ruleChainFetcherHasNoMemory(c *report.Ctx) {
+	p := c.P
+	c.Rule("chain-fetcher-has-no-memory", "the methods of ifc.chainFetcher keep nothing between calls: they store into no field of the fetcher, update or look up no map held in it and call no Store/LoadOrStore/Delete on a field of it — 'was this script hash ever paid' is answered by the chain database as it is now; an answer remembered from before a reorganisation (a cache of positive answers) keeps the gap window open and lets the wallet issue addresses a restore will never find", 5)
+	cf := p.Type(pkgIfc, "chainFetcher")
+	if cf == nil {
+		c.Lost("ifc.chainFetcher")
+		return
+	}
+	onFetcher := func(f *ssa.Function, addr ssa.Value) bool {
+		for i := 0; i < 6; i++ {
+			switch x := addr.(type) {
+			case *ssa.FieldAddr:
+				if n := an.NamedOf(x.X.Type()); n != nil && n.Obj() == cf.Obj() {
+					return true
+				}
+				addr = x.X
+			case *ssa.IndexAddr:
+				addr = x.X
+			case *ssa.UnOp:
+				if x.Op != token.MUL {
+					return false
+				}
+				addr = x.X
+			default:
+				return false
+			}
+		}
+		return false
+	}
+	mutators := map[string]bool{"Store": true, "Delete": true, "LoadOrStore": true, "LoadAndDelete": true, "Swap": true, "CompareAndSwap": true, "Load": true, "Range": true}
+	for _, f := range p.ModFuncs {
+		if pk := an.FuncPkg(f); pk == nil || pk.Path() != pkgIfc || f.Blocks == nil || f.Signature.Recv() == nil {
+			continue
+		}
+		if n := an.NamedOf(f.Signature.Recv().Type()); n == nil || n.Obj() != cf.Obj() {
+			continue
+		}
+		what := ""
+		var at ssa.Instruction
+		for _, g := range withLiterals(f) {
+			an.Instrs(g, func(in ssa.Instruction) {
+				switch x := in.(type) {
+				case *ssa.Store:
+					if onFetcher(g, x.Addr) {
+						what, at = "stores into "+p.Desc(x.Addr), in
+					}
+				case *ssa.MapUpdate:
+					if onFetcher(g, x.Map) {
+						what, at = "updates the map "+p.Desc(x.Map), in
+					}
+				case *ssa.Lookup:
+					if _, isMap := x.X.Type().Underlying().(*types.Map); isMap && onFetcher(g, x.X) {
+						what, at = "answers from the map "+p.Desc(x.X), in
+					}
+				}
+				if cc := an.CallOf(in); cc != nil && cc.StaticCallee() != nil && cc.StaticCallee().Signature.Recv() != nil && len(cc.Args) > 0 && mutators[cc.StaticCallee().Name()] {
+					if pk := an.FuncPkg(cc.StaticCallee()); pk != nil && (pk.Path() == "sync" || pk.Path() == "sync/atomic") && onFetcher(g, cc.Args[0]) {
+						what, at = "calls "+cc.StaticCallee().Name()+" on "+p.Desc(cc.Args[0]), in
+					}
+				}
+			})
+		}
+		key := sk(f) + ":stateless"
+		if what == "" {
+			c.OK(key, "asks the chain database and keeps nothing", p.Pos(f.Pos()))
+		} else {
+			c.Fail(key, sk(f)+" "+what+": an answer given before a reorganisation is given again after it", posOf(c, at))
+		}
+	}
+}
+
+// ruleParkedHandlerOnlyWaits (C17, C07, C20): while a background task holds it, the follower does nothing but wait.
+func ruleParkedHandlerOnlyWaits(c *report.Ctx) {
+	p := c.P
+	c.Rule("parked-handler-only-waits", "the select in which the follower waits to be resumed has exactly two ways out — sigResume and quit: asyncImport and asyncRemove read NtfnsHandler.bestBlock and write expiredMempool without memMtx and rely on the follower being parked; a parked follower that keeps connecting blocks (a third case on queueBlock) moves the tip under the task's feet, and an import that reaches the old tip marks the wallet ready without the new block", 1)
+	nh := p.Type(pkgWallet, "NtfnsHandler")
+	h := fn(c, pkgWallet, "", "handle")
+	if nh == nil || h == nil {
+		return
+	}
+	chanOf := func(v ssa.Value) string {
+		ld, ok := v.(*ssa.UnOp)
+		if !ok || ld.Op != token.MUL {
+			return "?"
+		}
+		fa, ok := ld.X.(*ssa.FieldAddr)
+		if !ok {
+			return "?"
+		}
+		if n := an.NamedOf(fa.X.Type()); n == nil || n.Obj() != nh.Obj() {
+			return "?"
+		}
+		return an.FName(derefStructT(fa.X.Type()), fa.Field)
+	}
+	n := 0
+	for _, g := range append(withLiterals(h), reachIn(p, h, pkgWallet)...) {
+		an.Instrs(g, func(in ssa.Instruction) {
+			sel, ok := in.(*ssa.Select)
+			if !ok {
+				return
+			}
+			var names []string
+			waits := false
+			for _, st := range sel.States {
+				nm := chanOf(st.Chan)
+				if st.Dir == types.RecvOnly && nm == "sigResume" {
+					waits = true
+				}
+				names = append(names, nm)
+			}
+			if !waits {
+				return
+			}
+			n++
+			key := siteKey(g, "parked-select", n)
+			bad := ""
+			for _, nm := range names {
+				if nm != "sigResume" && nm != "quit" {
+					bad = nm
+				}
+			}
+			if bad == "" && sel.Blocking {
+				c.OK(key, "waits for sigResume or quit only", posOf(c, in))
+			} else if bad == "" {
+				c.Fail(key, "the parked follower polls instead of waiting (a default case): it falls through into block processing while the task still runs", posOf(c, in))
+			} else {
+				c.Fail(key, "the parked follower also serves "+bad+": it goes on connecting blocks (or transactions) while a background task reads the tip and the expiry map without the lock", posOf(c, in))
+			}
+		})
+	}
+	if n == 0 {
+		c.Fail(sk(h)+":parked-select", "the follower no longer waits for sigResume in a select (anchor lost)", p.Pos(h.Pos()))
+	}
+}
+
+// ruleDigitsTrimmedOnlyByConverters (C15): only the converters decide which zeros of an amount are insignificant.
+func ruleDigitsTrimmedOnlyByConverters(c *report.Ctx) {
+	p := c.P
+	c.Rule("digits-trimmed-only-by-converters", "strings.Trim / TrimLeft / TrimRight with a cutset that contains a digit occurs only inside the amount converters (api.StringToAmount, api.AmountToString, masswallet.AmountToString), which cut the numeral at the decimal point first: anywhere else in the API, the wallet or the CLI a zero of an amount text cannot be told from a significant one (\"640 MASS\" → \"64\"), and the text is parsed into a tenth of the amount", 1)
+	conv := map[*ssa.Function]bool{}
+	for _, spec := range [][2]string{{pkgAPI, "StringToAmount"}, {pkgAPI, "AmountToString"}, {pkgWallet, "AmountToString"}} {
+		if f := fnOpt(c, spec[0], "", spec[1]); f != nil {
+			conv[f] = true
+		}
+	}
+	inside, outside := 0, 0
+	for _, f := range p.ModFuncs {
+		pk := an.FuncPkg(f)
+		if pk == nil || f.Blocks == nil {
+			continue
+		}
+		path := pk.Path()
+		if !(path == pkgAPI || strings.HasPrefix(path, pkgWallet) || strings.Contains(path, "/cmd/masswalletcli")) {
+			continue
+		}
+		owner := f
+		for owner.Parent() != nil {
+			owner = owner.Parent()
+		}
+		k := 0
+		an.Instrs(f, func(in ssa.Instruction) {
+			cc := an.CallOf(in)
+			if cc == nil || cc.StaticCallee() == nil || len(cc.Args) != 2 {
+				return
+			}
+			switch an.CanonKeyOf(cc.StaticCallee()) {
+			case "strings.Trim", "strings.TrimLeft", "strings.TrimRight":
+			default:
+				return
+			}
+			cut := foldConst(cc.Args[1], 0)
+			if cut == nil || cut.Kind() != constant.String || !strings.ContainsAny(constant.StringVal(cut), "0123456789") {
+				return
+			}
+			if conv[owner] {
+				inside++
+				return
+			}
+			// the converters' own helpers (called from a converter only) count as inside
+			callers := p.Callers(owner)
+			all := len(callers) > 0
+			for _, cl := range callers {
+				o2 := cl.From
+				for o2.Parent() != nil {
+					o2 = o2.Parent()
+				}
+				if !conv[o2] {
+					all = false
+				}
+			}
+			if all {
+				inside++
+				return
+			}
+			outside++
+			k++
+			c.Fail(siteKey(f, "digit-trim", k), sk(f)+" trims digits ("+cut.ExactString()+") off a text outside the amount converters: whether a zero is significant depends on where the decimal point is, which only the converters look at", posOf(c, in))
+		})
+	}
+	if inside < 2 {
+		c.Fail("digits-trimmed-only-by-converters:converters", "the converters no longer trim insignificant zeros themselves (anchor lost)", "")
+	} else if outside == 0 {
+		c.OK("digits-trimmed-only-by-converters:converters", itoa(inside)+" digit trims, all inside the converters", "")
+	}
+}
+
+// ruleFilterSiblingsAgreeOnFlags (C07): the live filter and the import filter judge a transaction the same way.
+func ruleFilterSiblingsAgreeOnFlags(c *report.Ctx) {
+	p := c.P
+	c.Rule("filter-siblings-agree-on-flags", "filterTx (live blocks and relayed transactions) and filterTxForImporting (the rescan of a restored wallet) set TxRecord.HasBindingIn / HasBindingOut by the same recipe — the flags feed the ErrBothBinding guard, so a rescan that accumulates them where the live path lets the last relevant input/output decide refuses a transaction the original wallet accepted, and the restore never finishes", 2)
+	rec := p.Type(pkgTxmgr, "TxRecord")
+	live := fn(c, pkgWallet, "NtfnsHandler", "filterTx")
+	imp := fn(c, pkgWallet, "NtfnsHandler", "filterTxForImporting")
+	if rec == nil || live == nil || imp == nil {
+		return
+	}
+	recipe := func(f *ssa.Function, field string) string {
+		var kinds []string
+		for _, g := range withLiterals(f) {
+			for _, s := range fieldStores(g, rec, field) {
+				st := s.(*ssa.Store)
+				kind := "assign"
+				// `x.F = x.F || e` lowers to a phi with a constant-true edge (or an OR of a load of the same field)
+				var reads func(v ssa.Value, d int) bool
+				reads = func(v ssa.Value, d int) bool {
+					if d > 4 {
+						return false
+					}
+					switch x := v.(type) {
+					case *ssa.UnOp:
+						return x.Op == token.MUL && addrRootsAtField(x.X, rec, field)
+					case *ssa.Phi:
+						for _, e := range x.Edges {
+							if reads(e, d+1) {
+								return true
+							}
+						}
+					case *ssa.BinOp:
+						return reads(x.X, d+1) || reads(x.Y, d+1)
+					}
+					return false
+				}
+				if ph, ok := st.Val.(*ssa.Phi); ok {
+					// short-circuit materialisation: phi(true | e) guarded by a load of the field
+					for _, pr := range ph.Block().Preds {
+						for _, a := range p.Guards(pr) {
+							if a.X != nil && reads(a.X, 0) {
+								kind = "accumulate"
+							}
+						}
+						if len(pr.Instrs) > 0 {
+							if ifi, isIf := pr.Instrs[len(pr.Instrs)-1].(*ssa.If); isIf && reads(ifi.Cond, 0) {
+								kind = "accumulate"
+							}
+						}
+					}
+				}
+				if reads(st.Val, 0) {
+					kind = "accumulate"
+				}
+				kinds = append(kinds, kind)
+			}
+		}
+		return strings.Join(uniq(kinds), "+")
+	}
+	for _, field := range []string{"HasBindingIn", "HasBindingOut"} {
+		a, b := recipe(live, field), recipe(imp, field)
+		key := "filterTx~filterTxForImporting:" + field
+		switch {
+		case a == "" || b == "":
+			c.Fail(key, "one of the two filters no longer sets TxRecord."+field+" (anchor lost)", p.Pos(imp.Pos()))
+		case a == b:
+			c.OK(key, "both "+a, p.Pos(imp.Pos()))
+		default:
+			c.Fail(key, "filterTx sets TxRecord."+field+" by '"+a+"', filterTxForImporting by '"+b+"': the rescan of a restored wallet judges a transaction (ErrBothBinding) differently from the wallet that received it live, and an import that hits such a transaction is rolled back and retried for ever", p.Pos(imp.Pos()))
+		}
+	}
+}
+
+// ruleBlockRecordKeepsOrder (C01, C08): removing a wallet's transactions from a block record keeps the others in order.
+func ruleBlockRecordKeepsOrder(c *report.Ctx) {
+	p := c.P
+	c.Rule("block-record-keeps-order", "checkBlockRecordAfterTxRemoved rewrites a block record from the surviving hashes in their stored order — it never stores into an element of the list it filters (the swap-with-last idiom): the record's order is block order, which Rollback walks backwards so that a spender is undone before the transaction that funded it; a reordered record makes the next reorganisation across that block fail for every remaining wallet", 1)
+	f := fn(c, pkgTxmgr, "TxStore", "checkBlockRecordAfterTxRemoved")
+	br := p.Type(pkgTxmgr, "blockRecord")
+	if f == nil {
+		return
+	}
+	bad := false
+	n := 0
+	for _, g := range withLiterals(f) {
+		an.Instrs(g, func(in ssa.Instruction) {
+			st, ok := in.(*ssa.Store)
+			if !ok {
+				return
+			}
+			ia, ok := st.Addr.(*ssa.IndexAddr)
+			if !ok {
+				return
+			}
+			// an element of a []wire.Hash that was read from the record (not a fresh slice being appended to)
+			sl, ok := ia.X.Type().Underlying().(*types.Slice)
+			if !ok || !strings.HasSuffix(sl.Elem().String(), "wire.Hash") {
+				return
+			}
+			d := p.Desc(ia.X)
+			if br != nil && (strings.Contains(d, "blockRecord.transactions") || strings.Contains(d, "transactions")) {
+				n++
+				bad = true
+				c.Fail(siteKey(g, "element-store", n), "an element of the block record's transaction list is overwritten in place ("+d+"): the surviving hashes lose their block order, and Rollback — which relies on it — fails with 'unexpected unspend non-existence credit' at the next reorganisation across this block", posOf(c, in))
+			}
+		})
+	}
+	if !bad {
+		c.OK(sk(f)+":order", "the list is rebuilt by appending the survivors", p.Pos(f.Pos()))
+	}
+}
+
+// ruleElementMapsAreMade (C19): a map stored as an element of the expiry map is a made map.
+func ruleElementMapsAreMade(c *report.Ctx) {
+	p := c.P
+	c.Rule("element-maps-are-made", "every map stored as an element of a map of maps that reaches NtfnsHandler.expiredMempool (the follower's per-height sets of confirmed transactions, handed from filterBlock through processConnectedBlock) is a made map, never a possibly-nil variable: asyncImport adds hashes to the element it finds (`m, ok := expired[h]; if !ok { make }; m[hash] = …`), and a nil element that IS present makes that write panic in the worker goroutine, whose recovery only logs — no import or removal runs again until restart", 1)
+	n := 0
+	for _, f := range p.ModFuncs {
+		if pk := an.FuncPkg(f); pk == nil || pk.Path() != pkgWallet || f.Blocks == nil {
+			continue
+		}
+		k := 0
+		an.Instrs(f, func(in ssa.Instruction) {
+			mu, ok := in.(*ssa.MapUpdate)
+			if !ok {
+				return
+			}
+			mt, ok := mu.Map.Type().Underlying().(*types.Map)
+			if !ok {
+				return
+			}
+			inner, ok := mt.Elem().Underlying().(*types.Map)
+			if !ok || !strings.HasSuffix(inner.Key().String(), "wire.Hash") {
+				return
+			}
+			if b, isB := mt.Key().Underlying().(*types.Basic); !isB || b.Kind() != types.Uint64 {
+				return
+			}
+			n++
+			k++
+			key := siteKey(f, "element", k)
+			// made here, or an element taken out of such a map of maps (made where it was stored), on every way
+			var made func(v ssa.Value, d int) bool
+			made = func(v ssa.Value, d int) bool {
+				if d > 5 {
+					return false
+				}
+				v = an.ResolveCell(v)
+				switch x := v.(type) {
+				case *ssa.MakeMap:
+					return true
+				case *ssa.Phi:
+					for i, e := range x.Edges {
+						if errorWayEdge(p, x, i) {
+							continue // the nil of a helper's error return merged in: the caller leaves on the error
+						}
+						if !made(e, d+1) {
+							return false
+						}
+					}
+					return len(x.Edges) > 0
+				case *ssa.Extract:
+					switch t := x.Tuple.(type) {
+					case *ssa.Next:
+						return x.Index == 2
+					case *ssa.Lookup:
+						_, isMM := t.X.Type().Underlying().(*types.Map)
+						return isMM && x.Index == 0
+					}
+				case *ssa.Lookup:
+					_, isMM := x.X.Type().Underlying().(*types.Map)
+					return isMM
+				}
+				return p.ValState(v, in.Block(), nil) == an.NonNil
+			}
+			if made(mu.Value, 0) {
+				c.OK(key, "a made map (or an element that was stored as one)", posOf(c, in))
+				return
+			}
+			c.Fail(key, "the per-height set stored here ("+p.Desc(mu.Value)+") can be nil (allocated lazily): the entry is present, so a later writer that finds it skips its own make and assigns into a nil map — panic in the worker goroutine", posOf(c, in))
+		})
+	}
+	if n == 0 {
+		c.Fail("element-maps-are-made:sites", "no per-height set is stored any more (anchor lost)", "")
+	}
+}
+
+// ruleAccountBucketCreatedExclusively (C18): a keystore's bucket is created with the call that refuses an existing one.
+func ruleAccountBucketCreatedExclusively(c *report.Ctx) {
+	p := c.P
+	c.Rule("account-bucket-created-exclusively", "createManagerKeyScope creates the account bucket with Bucket.NewBucket — which fails with ErrBucketExist — not with a get-or-create: the duplicate-seed lookup just above discards its read error, so NewBucket's refusal is what keeps an import of a wallet that is already present from re-initialising it (status reset to importing, balance row zeroed, keys rewritten) when that one read fails", 1)
+	f := fn(c, pkgKeystore, "", "createManagerKeyScope")
+	if f == nil {
+		return
+	}
+	excl, goc := 0, 0
+	var at ssa.Instruction
+	an.Instrs(f, func(in ssa.Instruction) {
+		cc := an.CallOf(in)
+		if cc == nil {
+			return
+		}
+		name := ""
+		if cc.IsInvoke() {
+			name = cc.Method.Name()
+		} else if cal := cc.StaticCallee(); cal != nil {
+			name = cal.Name()
+		}
+		// on the keystore manager's bucket handed in (the first parameter)
+		onKM := func(v ssa.Value) bool { return len(f.Params) > 0 && an.ResolveCell(v) == ssa.Value(f.Params[0]) }
+		switch name {
+		case "NewBucket":
+			if cc.IsInvoke() && onKM(cc.Value) {
+				excl++
+			}
+		case "GetOrCreateBucket":
+			// (the fixed index bucket, named by a constant, may be opened that way; the wallet's own bucket may not)
+			if len(cc.Args) > 1 && onKM(cc.Args[0]) && foldConst(cc.Args[1], 0) == nil {
+				goc++
+				at = in
+			}
+		}
+	})
+	key := sk(f) + ":account-bucket"
+	switch {
+	case goc > 0:
+		c.Fail(key, "the account bucket is opened with GetOrCreateBucket: an import whose duplicate lookup could not be answered goes on into the existing wallet's bucket and re-initialises a live wallet", posOf(c, at))
+	case excl == 0:
+		c.Fail(key, "createManagerKeyScope no longer creates the account bucket with NewBucket (anchor lost)", p.Pos(f.Pos()))
+	default:
+		c.OK(key, "NewBucket(accountID): an existing wallet is refused", p.Pos(f.Pos()))
+	}
+}
+
+// ruleRemovalAnswersOnlyAfterPassphrase (C05, C08): RemoveWallet says yes only to the wallet's passphrase.
+func ruleRemovalAnswersOnlyAfterPassphrase(c *report.Ctx) {
+	p := c.P
+	c.Rule("removal-answers-only-after-passphrase", "every success return of WalletManager.RemoveWallet lies behind a successful KeystoreManager.CheckPrivPassphrase for the wallet id it was given: no state of the wallet (already flagged for removal, worker busy, …) lets the request be answered 'ok' before the passphrase was verified — a removal request is refused with a passphrase error for every wrong passphrase, before and after restarts", 1)
+	rw := fn(c, pkgWallet, "WalletManager", "RemoveWallet")
+	chk := fn(c, pkgKeystore, "KeystoreManager", "CheckPrivPassphrase")
+	if rw == nil || chk == nil {
+		return
+	}
+	okBlocks := map[*ssa.BasicBlock]bool{}
+	for _, s := range calls(rw, chk) {
+		if v, ok := s.(ssa.Value); ok {
+			for _, b := range p.SuccessBlocks(v) {
+				okBlocks[b] = true
+			}
+		}
+	}
+	key := sk(rw) + ":success=>passphrase"
+	if len(okBlocks) == 0 {
+		c.Fail(key, "RemoveWallet no longer branches on CheckPrivPassphrase (anchor lost)", p.Pos(rw.Pos()))
+		return
+	}
+	s := &an.Search{P: p, Fn: rw,
+		CutEdge:    func(from, to *ssa.BasicBlock) bool { return okBlocks[to] },
+		GoalReturn: func(r *ssa.Return, pred *ssa.BasicBlock) bool { return p.ClassifyReturn(r, pred) != an.RetError }}
+	if w := s.Run(rw.Blocks[0], 0, nil); w != nil {
+		c.Fail(key, "RemoveWallet can answer 'ok' on a path that never verified the passphrase: any caller — with any passphrase — is told the removal was accepted", p.Pos(rw.Pos()), w...)
+	} else {
+		c.OK(key, "every success return lies behind CheckPrivPassphrase's success", p.Pos(rw.Pos()))
+	}
+}
+
+// errorWayEdge: edge i of the merged result ph belongs to a way on which the sibling error result (a phi of error type
+// in the same block) is known non-nil — a way the caller leaves on the error before it uses ph.
+func errorWayEdge(p *an.Prog, ph *ssa.Phi, i int) bool {
+	if i >= len(ph.Block().Preds) {
+		return false
+	}
+	for _, in := range ph.Block().Instrs {
+		e, ok := in.(*ssa.Phi)
+		if !ok {
+			break
+		}
+		if e == ph || !an.IsErrorType(e.Type()) || len(e.Edges) != len(ph.Edges) {
+			continue
+		}
+		if p.ValState(e.Edges[i], ph.Block().Preds[i], nil) == an.NonNil {
+			return true
+		}
+	}
+	return false
+}
